@@ -26,8 +26,8 @@ Unions: the library keeps the members of a union as separate values; a member ch
 as they were parsed.  The oracle takes the member values as they are.  Changes below a union go through the member the
 union is written from (the first-declared largest member); and an assignment that makes the union re-read all its members (a field
 of a nested structure member assigned through the union's proxy) is not generated after an in-place change below that union:
-changes through another member, and re-reads after an in-place change, are the PENDING-FINDING noted at
-`ALLOW_STALE_UNION_MEMBERS` below (they fail on the unmodified tree; reported, disabled).
+changes through another member, and re-reads after an in-place change, are known finding F49 (witness in known_findings.json, printed as KNOWN-FINDING by the check); see
+`ALLOW_STALE_UNION_MEMBERS` below (that territory is not generated here).
 """
 from __future__ import annotations
 
@@ -38,7 +38,7 @@ INTS = {"uint8": (1, False), "int8": (1, True), "uint16": (2, False), "int16": (
         "uint24": (3, False), "uint64": (8, False)}
 
 ALLOW_STALE_UNION_MEMBERS = False
-if False:  # PENDING-FINDING (u4, C17): on the UNMODIFIED tree `==` of unions looks only at the member the union is written from
+if False:  # known finding F49 territory (u4, C17; not generated): on the UNMODIFIED tree `==` of unions looks only at the member the union is written from
     # (the first-declared largest member); the other members are separate values that an in-place change leaves stale:
     #  (1) cs.load("union w2 { uint32 b; uint8 a[4]; };"); x = cs.w2(b"\1\2\3\4"); y = cs.w2(b"\1\2\3\4"); y.a[0] = 9
     #      -> x.a != y.a, yet x == y is True (Union.__eq__ compares bytes(self), which serialises member `b` only);
